@@ -8,6 +8,7 @@ EnvProtos == IF "C06_PROTO" \in DOMAIN IOEnv /\ IOEnv.C06_PROTO \in {"v3", "v4"}
 EnvDirSets == IF "C06_DIR" \in DOMAIN IOEnv /\ IOEnv.C06_DIR \in {"push", "pull", "pushAndPull"}
               THEN (CASE IOEnv.C06_DIR = "push" -> {{"push"}} [] IOEnv.C06_DIR = "pull" -> {{"pull"}} [] OTHER -> {{"push", "pull"}})
               ELSE {{"push"}, {"pull"}, {"push", "pull"}}
+EnvResolvers == IF "C06_RES" \in DOMAIN IOEnv /\ IOEnv.C06_RES \in {"default", "merge"} THEN {IOEnv.C06_RES} ELSE {"default", "merge"}
 D1 == {1}
 D2 == {1, 2}
 
@@ -71,5 +72,5 @@ Interesting == \E i \in 1..Len(hist) : hist[i].a = "Wait"
 DirName == IF dirs = AllDirs THEN "pushAndPull" ELSE IF dirs = {"push"} THEN "push" ELSE "pull"
 BehaviourExport ==
   (Len(hist) = MaxSteps /\ Interesting) =>
-     PrintT(<<"BEH", ToJson([proto |-> proto, dir |-> DirName, steps |-> hist])>>)
+     PrintT(<<"BEH", ToJson([proto |-> proto, dir |-> DirName, res |-> resolver, steps |-> hist])>>)
 =============================================================================
